@@ -123,8 +123,9 @@ def full_guard(lit, xfield, size_field, arrivals):
 
 
 def arrivals_counter(prog, cls, summary, path_list):
-    """A field initialised to 0, incremented by exactly 1 as the first effect of every update path
-    and written nowhere else in the class; returns its name or None."""
+    """A field initialised to 0, incremented by exactly 1 exactly once on every update path and written
+    nowhere else in the class; returns its name or None. (Terms are values: `field + 1` denotes the number
+    of arrivals including the current one wherever the increment statement sits.)"""
     init = prog.summarise(cls, "__init__")
     cands = []
     for f, t in summary.fields.items():
@@ -134,8 +135,7 @@ def arrivals_counter(prog, cls, summary, path_list):
         ok = True
         for p in path_list:
             st = [e for e in p.events if isinstance(e, ir.Store) and e.field == f]
-            effects = [e for e in p.events if isinstance(e, (ir.Store, ir.SubStore, ir.Mut, ir.Call, ir.Draw))]
-            if len(st) != 1 or not effects or effects[0] is not st[0]:
+            if len(st) != 1 or st[0].value != ("op", "+", ("field0", f), ("const", 1)):
                 ok = False
         # no other method writes it
         for c in prog.mro(cls):
